@@ -141,7 +141,7 @@ theorem readV_signed (V : Verifier) (tbl : List AlgEntry) (strict : Bool) (w : B
       ∧ skipName w w.length (w.length + 1) s = some p ∧ rd16 w p = ConstsC14.typeTsig
       ∧ readRR V tbl strict w kr now rm multi 3 (rd16 w 10) (rd16 w 10 - 1) ⟨s, none, ctx⟩ = .ok st3
       ∧ st3.cur = w.length ∧ st3.tsig = some f ∧ r.ctx = st3.ctx := by
-  unfold readV at h
+  unfold readV readVI at h
   split at h; · cases h
   rename_i hlen
   split at h; · cases h
@@ -156,7 +156,7 @@ theorem readV_signed (V : Verifier) (tbl : List AlgEntry) (strict : Bool) (w : B
   split at h; · cases h
   rename_i hend
   have hend' : st3.cur = w.length := by
-    apply Classical.byContradiction; intro hh; exact hend hh
+    apply Classical.byContradiction; intro hh; exact hend ⟨trivial, hh⟩
   have w1 := readSection_walk V tbl strict w kr now rm multi 1 (rd16 w 6) (rd16 w 6) ⟨p0, none, ctx⟩ st1 (Nat.le_refl _) rfl h1
   have w1' : skipRRs w (rd16 w 6) p0 = some st1.cur ∧ st1.tsig = none ∧ st1.ctx = ctx := by
     rcases w1 with hh | ⟨hsec, _⟩
